@@ -34,3 +34,11 @@ func MSetFault(env *lmdb.Env, n int) {
 	}
 	e.FaultAt = e.NOps + n
 }
+
+// RetentionDaysRel is RetentionDays for harnesses whose data is expressed relative to "now":
+// natively the setting is chosen so that RetentionDuration() - now is what it was in the
+// counterexample (cexNow names the counterexample's clock value), up to float32 rounding.
+func RetentionDaysRel(cexNow string) float32 {
+	r := int64(replayVals["retention"]) - int64(replayVals[cexNow]) + time.Now().UnixNano()
+	return float32(float64(r) / 86400e9)
+}
